@@ -27,7 +27,10 @@
      in(errBuf, ...) called from In / Include means in_text
    and, for Ints:
      tv.Len()  tv.Index(i).Interface() (slices and arrays, with the run-time bound)   x += e on strings
-     for i := 0; i < l; i++ { body } when the body assigns neither i nor l (a counted loop: l read once) *)
+     for i := 0; i < l; i++ { body } when the body assigns neither i nor l (a counted loop: l read once)
+   and, for Re (bytes are a string here):
+     for ; i < l; i++ { body } from the current i (same condition)   s[i] (a byte)   s[:j]  s[i:]   integer -
+     make([]byte, 0, n)  append(bytes, byte)  string(bytes)   matched, _ := regexp.MatchString(pattern, s) (oracle) *)
 From Coq Require Import String.
 From PGV Require Import Base.Bytes Base.GoStr Base.GoNum Base.Utf8 Base.MiniGo Regex.Re Regex.Rx Extracted.SourceRegex.
 From PGV Require Import Extracted.SourceConst Model.RuleText Model.Value Model.Clause Model.Rules.
@@ -55,6 +58,7 @@ Definition rempty : renv :=
            else if String.eqb y "otoValErr" then RErr (Some (FRuleErr (s2b "oto")))
            else if String.eqb y "intsErr" then RErr (Some (FRuleErr (s2b "ints")))
            else if String.eqb y "uniqueErr" then RErr (Some (FRuleErr (s2b "unique")))
+           else if String.eqb y "reErr" then RErr (Some (FRuleErr (s2b "re")))
            else if String.eqb y "inValErr" then RErr (Some (FRuleErr (s2b "in")))
            else if String.eqb y "includeErr" then RErr (Some (FRuleErr (s2b "include")))
            else RBad.
@@ -185,6 +189,7 @@ Section Sem.
                   else RBad
     | EIndex a i =>
       match reval e a, reval e i with
+      | RS x, RZ z => if 0 <=? z then match nth_error x (Z.to_nat z) with Some c => RZ (Z.of_N c) | None => RBad end else RBad
       | RL l, RZ z => if 0 <=? z then match nth_error l (Z.to_nat z) with Some x => RS x | None => RBad end else RBad
       | RLB l, RZ z => if 0 <=? z then match nth_error l (Z.to_nat z) with Some x => RB x | None => RBad end else RBad
       | _, _ => RBad
@@ -193,6 +198,10 @@ Section Sem.
       RFn (fun x y => match reval (rset b (RS y) (rset a (RS x) e)) ret with RB r => Some r | _ => None end)
     | ESlice a (Some lo) (Some hi) =>
       match reval e a, reval e lo, reval e hi with RS x, RZ l, RZ h => rslice x l h | _, _, _ => RBad end
+    | ESlice a None (Some hi) =>
+      match reval e a, reval e hi with RS x, RZ h => rslice x 0 h | _, _ => RBad end
+    | ESlice a (Some lo) None =>
+      match reval e a, reval e lo with RS x, RZ l => rslice x l (Z.of_nat (List.length x)) | _, _ => RBad end
     | EBin op a b =>
       let ne := fun x y =>
         match x, y with
@@ -212,6 +221,7 @@ Section Sem.
       else if String.eqb op "+" then
         match reval e a, reval e b with RS x, RS y => RS (x ++ y) | RZ x, RZ y => RZ (x + y) | _, _ => RBad end
       else if String.eqb op "<" then match reval e a, reval e b with RZ x, RZ y => RB (x <? y) | _, _ => RBad end
+      else if String.eqb op "-" then match reval e a, reval e b with RZ x, RZ y => RZ (x - y) | _, _ => RBad end
       else if String.eqb op ">=" then match reval e a, reval e b with RZ x, RZ y => RB (y <=? x) | _, _ => RBad end
       else if String.eqb op "|" then match reval e a, reval e b with RZ x, RZ y => RZ (Z.lor x y) | _, _ => RBad end
       else if String.eqb op "<<" then match reval e a, reval e b with RZ x, RZ y => RZ (Z.shiftl x y) | _, _ => RBad end
@@ -320,8 +330,15 @@ Section Sem.
       else if String.eqb f "make" then        (* make(map[string]struct{}, n): an empty set; n is a capacity *)
         match args with
         | [EId ty; _] => if String.eqb ty "map[string]struct{}" then RSet [] else RBad
+        | [EId ty; ELit 0; _] => if String.eqb ty "[]byte" then RS [] else RBad      (* make([]byte, 0, n): no bytes yet *)
         | _ => RBad
         end
+      else if String.eqb f "append" then       (* append(bytes, byte) *)
+        match vs with
+        | [RS x; RZ c] => if (0 <=? c) && (c <? 256) then RS (x ++ [Z.to_N c]) else RBad
+        | _ => RBad
+        end
+      else if String.eqb f "string" then match vs with [RS x] => RS x | _ => RBad end      (* string(bytes) *)
       else if String.eqb f "StrEscape" then match vs with [RS x] => RS (str_escape x) | _ => RBad end
       else if String.eqb f "ReflectKindIsNum" then match vs with [RKind k] => RB (kind_name_is_int k) | _ => RBad end
       else if String.eqb f "GetTimeFmt" then
@@ -420,7 +437,15 @@ Section Sem.
     match s with
     | SAssign _ [EId x] [rhs] => match reval e rhs with RBad => RStuck | v => RNext (rset x v e) end
     | SAssign true lhs [ECall (ESel (EId pkg) f) [a; b]] =>       (* _, err := time.Parse(layout, s) *)
-      if String.eqb pkg "time" && String.eqb f "Parse" then
+      if String.eqb pkg "regexp" && String.eqb f "MatchString" then      (* matched, _ := regexp.MatchString(pattern, s): oracle *)
+        match reval e a, reval e b with
+        | RS pat, RS x => match bind lhs [RB (re_ok orc pat x); RBad] e with
+                          | Some e1 => RNext e1
+                          | None => RStuck
+                          end
+        | _, _ => RStuck
+        end
+      else if String.eqb pkg "time" && String.eqb f "Parse" then
         match reval e a, reval e b with
         | RS layout, RS x => match bind lhs [RBad; if time_ok orc layout x then RErr None else RErrO] e with
                              | Some e1 => RNext e1
@@ -498,6 +523,13 @@ Section Sem.
         match e l with
         | RZ n => if 0 <=? n then counted_loop (Z.to_nat n) 0 i (run body) e else RStuck
         | _ => RStuck
+        end
+      else RStuck
+    | SFor [] (Some (EBin op (EId i1) (EId l))) [SIncDec true (EId i2)] body =>      (* for ; i < l; i++ : from the current i *)
+      if String.eqb op "<" && String.eqb i2 i1 && negb (assigns_any i1 body) && negb (assigns_any l body) then
+        match e i1, e l with
+        | RZ i0, RZ n => if i0 <=? n then counted_loop (Z.to_nat (n - i0)) i0 i1 (run body) e else RStuck
+        | _, _ => RStuck
         end
       else RStuck
     | SReturn [] => RRet e
